@@ -106,7 +106,12 @@ func ProfileChooser(spec string, seed int64) func(line []byte) []int {
 //	onebyte  one byte per Read (iotest.OneByteReader behaviour)
 //	chunk    seeded chunk sizes, 1..7 bytes mixed with large pieces, so that read boundaries fall inside size
 //	         prefixes, BlobHeaders and Blobs (a socket / pipe / decompressor)
-var ReaderKinds = []string{"bytes", "onebyte", "chunk"}
+//	dataeof  every Read is satisfied completely and the Read that hands out the last bytes of the stream returns
+//	         io.EOF together with them (iotest.DataErrReader behaviour; HTTP bodies of known length do this)
+//	chunkeof the seeded chunks of "chunk", and the last piece comes together with io.EOF
+//
+// (A reader that sometimes returns (0, nil) is legal but discouraged by io.Reader's contract; it is not used.)
+var ReaderKinds = []string{"bytes", "onebyte", "chunk", "dataeof", "chunkeof"}
 
 // ReaderKindFor picks the reader behaviour of a run as a function of the case text, the seed and the run parameters only.
 func ReaderKindFor(line []byte, seed int64, profile, procs int) string {
@@ -118,9 +123,11 @@ func NewReader(kind string, data []byte, seed int64) io.Reader {
 	switch kind {
 	case "onebyte":
 		return &chunkReader{data: data, next: func() int { return 1 }}
-	case "chunk":
+	case "dataeof":
+		return &chunkReader{data: data, next: func() int { return 1 << 30 }, eofWithData: true}
+	case "chunk", "chunkeof":
 		rng := rand.New(rand.NewSource(seed*1000003 + int64(len(data))))
-		return &chunkReader{data: data, next: func() int {
+		return &chunkReader{data: data, eofWithData: kind == "chunkeof", next: func() int {
 			if rng.Intn(10) < 7 {
 				return 1 + rng.Intn(7)
 			}
@@ -131,8 +138,9 @@ func NewReader(kind string, data []byte, seed int64) io.Reader {
 }
 
 type chunkReader struct {
-	data []byte
-	next func() int
+	data        []byte
+	next        func() int
+	eofWithData bool // the Read that returns the final bytes also returns io.EOF
 }
 
 func (c *chunkReader) Read(p []byte) (int, error) {
@@ -151,5 +159,8 @@ func (c *chunkReader) Read(p []byte) (int, error) {
 	}
 	copy(p, c.data[:n])
 	c.data = c.data[n:]
+	if c.eofWithData && len(c.data) == 0 {
+		return n, io.EOF
+	}
 	return n, nil
 }
